@@ -77,6 +77,12 @@ class Malformed(Harness):
                 dots = {k: -1 for k in exp}
                 for lazy, mode, chunked in ((True, "seek", False), (False, "seek", True)):
                     out.append(dict(fmt="bedgraph", rows=[[1, 1, 1, 3]] * 3, exp=exp, dot=dots, bad=list(bad), lazy=lazy, mode=mode, chunked=chunked))
+        # texts made of legal bytes that are not numbers: a second '.', and '.' or '-' alone
+        for rows, bad in (([[1, 1, 1, 3]] * 3, (1, 3, 0)), ([[1, 1, 1, 3]] * 3, (2, 3, 2)), ([[1, 1, 1, 3]] * 3, (0, 3, 2)),
+                          ([[1, 1, 1, 3], [1, 1, 1, 1], [1, 1, 1, 3]], (1, 3, 0)), ([[1, 1, 1, 1], [1, 1, 1, 3], [1, 1, 1, 3]], (0, 3, 0)),
+                          ([[1, 1, 1, 1]] * 3, (2, 3, 0))):
+            for lazy, mode, chunked in ((True, "seek", False), (False, "seek", True)):
+                out.append(dict(fmt="bedgraph", rows=rows, structure=True, bad=list(bad), lazy=lazy, mode=mode, chunked=chunked))
         L = {"widths": [1, 1], "trailing": False}
         for bad in ((0, 10, 0), (1, 10, 2), (2, 11, 0), (1, 11, 2)):
             for lazy, mode, chunked in ((True, "seek", False), (False, "seek", True)):
@@ -157,6 +163,9 @@ class Malformed(Harness):
                 if kind == "oint" and skel["rows"][r][c] == 1:
                     bad = z3.And(bad, nv.t != 46)
                 ENGINE.assume(bad)
+            elif kind == "float" and skel.get("structure"):
+                # the byte is legal in a number but the text is not one: a second '.' in 'd.d', or '.' / '-' as the whole text
+                ENGINE.assume(z3.Or(nv.t == 46, nv.t == 45) if skel["rows"][r][c] == 1 else nv.t == 46)
             elif kind == "float":     # no digit, no '.', no exponent mark, no sign
                 ENGINE.assume(z3.And(z3.Or(nv.t < 48, nv.t > 57), nv.t != 46, nv.t != 101, nv.t != 69, nv.t != 43, nv.t != 45))
             elif kind == "ilist":     # neither a digit nor the separator
